@@ -110,3 +110,36 @@ Definition iterate_ok (stmts calls : list string) : bool :=
   | _ => false
   end
   && list_string_eqb calls ["fn.build(b, fn)"; "fn.done()"]%string.
+
+(* go/ir/task.go as transcribed by Model/C18.v: struct task and its five functions, statement by statement
+   (verif hook calls removed, comments dropped). [guard]/[effect] mirror exactly this text:
+   - isTransitivelyDone: nil task or flag                      -> trans (task 0 is transitively done in init)
+   - addEdge: early return iff x == y or y transitively done   -> LAddSkip; panic when x is done -> guard of LAddEdge
+   - markDone: close(x.done)                                   -> LMarkDone
+   - wait: fast path; loop over work with skip / <-u.done / enqueue of u.edges; then transitive.Store -> LWait*  *)
+Open Scope string_scope.
+Definition expected_task_source : list (string * list string) :=
+  [ ("isTransitivelyDone", ["return x == nil || x.transitive.Load()"]);
+    ("addEdge", ["if x == y || y.isTransitivelyDone() { return }"; "select { case <-x.done: panic(""cannot add an edge to a done task"") default: }"; "if x.edges == nil { x.edges = make(map[*task]unit) }"; "x.edges[y] = unit{}"]);
+    ("markDone", ["if x != nil { close(x.done) }"]);
+    ("wait", ["if x.isTransitivelyDone() { return }"; "work := []*task{x}"; "enqueued := map[*task]unit{x: {}}"; "for i := 0; i < len(work); i++ { u := work[i] if u.isTransitivelyDone() { work[i] = nil continue } <-u.done for v := range u.edges { if _, ok := enqueued[v]; !ok { enqueued[v] = unit{} work = append(work, v) } } }"; "for _, u := range work { if u != nil { x.transitive.Store(true) } }"]);
+    ("type task", ["done chan unit"; "edges map[*task]unit"; "transitive atomic.Bool"]) ].
+
+Close Scope string_scope.
+
+Definition entry_eqb (a b : string * list string) : bool :=
+  String.eqb (fst a) (fst b) && list_string_eqb (snd a) (snd b).
+
+Fixpoint entries_eqb (a b : list (string * list string)) : bool :=
+  match a, b with
+  | [], [] => true
+  | x :: a', y :: b' => entry_eqb x y && entries_eqb a' b'
+  | _, _ => false
+  end.
+
+Definition task_source_ok (src : list (string * list string)) : bool := entries_eqb src expected_task_source.
+
+(* the functions of task.go whose text is not the transcribed one (for the report) *)
+Definition task_source_diff (src : list (string * list string)) : list string :=
+  map fst (filter (fun e => negb (existsb (entry_eqb e) expected_task_source)) src) ++
+  map fst (filter (fun e => negb (existsb (entry_eqb e) src)) expected_task_source).
